@@ -10,6 +10,7 @@ from .framework import result, emu_verdict, ihash, list_chunks
 from .prv import Pvt, PrvError
 
 CAT = W.CATALOGUE
+BOUNDARY_LABELS = [x["label"] for x in __import__("json").load(open(os.path.join(os.path.dirname(os.path.abspath(__file__)), "..", "data", "boundary_labels.json")))["labels"]]
 
 
 # ----------------------------------------------------------------- world build
@@ -440,6 +441,8 @@ class Gen:
                 while n in types:
                     n -= 1
             label = r.choice(["", "kernel%d" % n, "solve %d" % n, "t%d" % r.below(3), "x" * r.choice([1, 100, 400]) + str(n)])
+            if self.k.get("big_ids") and r.chance(30):
+                label = r.choice(BOUNDARY_LABELS)
             existing = set(types.values())
             shown = label if label else "(unlabeled task type %d)" % n
             if shown in existing:
